@@ -93,6 +93,11 @@ impl Method for SWMA {
 	#[inline]
 	fn next(&mut self, &value: &Self::Input) -> Self::Output {
 		if self.right_window.is_empty() {
+			// `length` is 1: the average is the value itself (the only weight is 1).
+			// Keep the state in sync with it, so `peek` returns the last produced value.
+			self.left_window.push(value);
+			self.left_total = -value;
+			self.numerator = value;
 			return value;
 		}
 
